@@ -107,7 +107,7 @@ theorem is_dropped_never_reverts (n : Nat) (ops later : List Op) (i : Nat)
   obtain ⟨evs, he⟩ := hext
   exact (linv_run n (ops ++ later)).droppedDead i (by rw [he]; exact List.mem_append_right _ h) o ho
 
-/-! "A weak pointer never keeps its target alive" is `C02.exact_statement` (reachability there is
+/-! "A weak pointer never keeps its target alive" is `C02.exactness` (reachability there is
     strong only) and is pending with it. -/
 
 /-! ### Non-vacuity -/
